@@ -30,6 +30,56 @@ import (
 // acquisition order, so that it does not depend on the schedule when deliveries are independent
 // objects (Coq: C07_deliveries_independent).
 
+// chunkFs: a mem file system whose files hand out their content in short reads: the i-th Read call
+// returns at most pattern[i mod len] bytes (io.Reader allows any 0 < n <= len(p)).  The decoders sit
+// on bufio.Reader / bufio.Scanner / json.Decoder, which must not depend on how the file is cut into
+// Read results (Coq: C07_bufio_clients_exact).
+type chunkFs struct {
+	afero.Fs
+	pattern []int
+}
+
+type chunkFile struct {
+	afero.File
+	pattern []int
+	i       int
+}
+
+func (c chunkFs) Open(name string) (afero.File, error) {
+	f, err := c.Fs.Open(name)
+	if err != nil || len(c.pattern) == 0 {
+		return f, err
+	}
+	return &chunkFile{File: f, pattern: c.pattern}, nil
+}
+
+func (c *chunkFile) Read(p []byte) (int, error) {
+	n := c.pattern[c.i%len(c.pattern)]
+	c.i++
+	if n >= 1 && n < len(p) {
+		p = p[:n]
+	}
+	return c.File.Read(p)
+}
+
+// ParseChunks: "7,4096,3" -> pattern
+func ParseChunks(s string) []int {
+	var out []int
+	for _, t := range strings.Split(s, ",") {
+		n := 0
+		for _, ch := range t {
+			if ch < '0' || ch > '9' {
+				return nil
+			}
+			n = n*10 + int(ch-'0')
+		}
+		if n >= 1 {
+			out = append(out, n)
+		}
+	}
+	return out
+}
+
 // reqSummaryStrict: ReqSummary, with a body that cannot be read to its end marked.
 func reqSummaryStrict(req *http.Request, tag string) string {
 	var body []byte
@@ -66,11 +116,15 @@ func summarizeStrict(a core.Ammo) string {
 // sync.Pool and the like is deterministic, which is the schedule under which two instances of a pool
 // that share a P see each other's objects.  Observation as RunProvider: deliveries in acquisition
 // order, then the status word.
-func RunProviderSched(decoder string, file []byte, preload bool, events string) string {
+func RunProviderSched(decoder string, file []byte, preload bool, events string, chunks []int) string {
 	defer runtime.GOMAXPROCS(runtime.GOMAXPROCS(1))
-	fs := afero.NewMemMapFs()
-	if err := afero.WriteFile(fs, "ammo", file, 0o644); err != nil {
+	mem := afero.NewMemMapFs()
+	if err := afero.WriteFile(mem, "ammo", file, 0o644); err != nil {
 		return "harness-error"
+	}
+	var fs afero.Fs = mem
+	if len(chunks) > 0 {
+		fs = chunkFs{Fs: mem, pattern: chunks}
 	}
 	conf := config.Config{Decoder: config.DecoderType(decoder), File: "ammo", Preload: preload}
 	type res struct {
